@@ -64,27 +64,27 @@ type tokT struct {
 }
 
 type action struct {
-	Name  string    `json:"name"`
-	V     int       `json:"v"`
-	Path  []int     `json:"path"`
-	Txs   []int     `json:"txs"`
-	Diff  *diffT    `json:"diff"`
-	Evs   [][]evT   `json:"evs"`
-	N     int       `json:"n"`
-	Num   int       `json:"num"`
-	K     int       `json:"k"`
-	Idx   int       `json:"idx"`
-	Base  int       `json:"base"`
-	ID    *blockID  `json:"id"`
-	T     int       `json:"t"`
-	I     int       `json:"i"`
-	C     int       `json:"c"`
-	S     int       `json:"s"`
-	F     *filterT  `json:"f"`
-	From  *blockID  `json:"from"`
-	To    *blockID  `json:"to"`
-	Chunk int       `json:"chunk"`
-	Tok   *tokT     `json:"tok"`
+	Name  string   `json:"name"`
+	V     int      `json:"v"`
+	Path  []int    `json:"path"`
+	Txs   []int    `json:"txs"`
+	Diff  *diffT   `json:"diff"`
+	Evs   [][]evT  `json:"evs"`
+	N     int      `json:"n"`
+	Num   int      `json:"num"`
+	K     int      `json:"k"`
+	Idx   int      `json:"idx"`
+	Base  int      `json:"base"`
+	ID    *blockID `json:"id"`
+	T     int      `json:"t"`
+	I     int      `json:"i"`
+	C     int      `json:"c"`
+	S     int      `json:"s"`
+	F     *filterT `json:"f"`
+	From  *blockID `json:"from"`
+	To    *blockID `json:"to"`
+	Chunk int      `json:"chunk"`
+	Tok   *tokT    `json:"tok"`
 }
 
 // item is one emitted event in the abstract: block number, block hash (path; [9] = absent),
